@@ -15,6 +15,7 @@ from .. import refbacktest as rb
 from ..refprice import RefPrices
 
 NAME = "session"
+ISOLATE = "fork"
 PROPS = ("C08", "C09", "C10", "C11", "C12", "C13", "C14", "C16", "C19")
 CHUNK = {"quick": 6, "thorough": 6}
 RULE = ("(rebalance kind, weekday class, sizing mode, fee kind, alpha kind, universe kind, burn-in class, "
@@ -523,9 +524,10 @@ def judge_c09(cfg, market, out, ctx):
         target = dict(s["result"])
         weights = p.get("alpha") or {}
         want_assets = set(p["universe"]) | set(held) | set(weights)
-        if not ctx.check(P, set(target) == want_assets, "target_asset_set_not_universe_held_weighted",
-                         lambda: {"t": iso(t), "target": sorted(target), "expected": sorted(want_assets)},
-                         sig="target_asset_set_not_universe_held_weighted"):
+        stray = [a for a, q in target.items() if a not in want_assets and q != 0]
+        if not ctx.check(P, not stray, "target_for_asset_outside_universe_held_weighted",
+                         lambda: {"t": iso(t), "assets": stray, "target": target, "expected": sorted(want_assets)},
+                         sig="target_for_asset_outside_universe_held_weighted"):
             return
         exp = [(a, target.get(a, 0) - held.get(a, 0)) for a in sorted(set(target) | set(held))
                if target.get(a, 0) - held.get(a, 0) != 0]
@@ -609,9 +611,12 @@ def judge_sizer(cfg, out, ctx, P):
         if not (E > 0) or any(not (p > 0) for p in prices.values()):
             ctx.probe("sizer_out_of_domain")
             continue
-        res = s["result"]
-        if not ctx.check(P, set(res) == set(w), "sizer_asset_set", lambda: {"res": sorted(res), "w": sorted(w)}):
+        res = dict(s["result"])
+        stray = [a for a, q in res.items() if a not in w and q != 0]
+        if not ctx.check(P, not stray, "target_for_asset_without_weight", lambda: {"assets": stray, "res": res}):
             return
+        for a in w:
+            res.setdefault(a, 0)        # an asset left out of the target has a target of zero
         if not ctx.check(P, all(isinstance(q, int) and not isinstance(q, bool) for q in res.values()),
                          "target_quantity_not_a_whole_number",
                          lambda: {"types": dict((a, type(q).__name__) for a, q in res.items())}):
